@@ -520,7 +520,10 @@ class Fn:
             self._expr_cache[l] = e
             return e
         ds = self.defs.get(l, [])
-        if len(ds) != 1 or ds[0][0] == 'partial' or l in self.mut_scalars:
+        if l in self.mut_scalars and len(ds) == 1 and ds[0][0] == 'assign' and not self.local_name(l) \
+                and ds[0][3]['r'] == 'use' and ds[0][3]['a']['o'] == 'const':
+            pass    # `&mut <literal>` temporary (e.g. `x > &mut 0.0`): still that literal
+        elif len(ds) != 1 or ds[0][0] == 'partial' or l in self.mut_scalars:
             e = ('var', l, self.local_name(l))
             self._expr_cache[l] = e
             return e
